@@ -1,7 +1,7 @@
 """C03 — rendering JSONB as text yields valid JSON that denotes the same document."""
 import json, re
 from .. import gen
-from . import common
+from . import common, sizes
 
 SPEC_THEOREM = 'Props/C03: strict reading of the rendering gives the document back; pretty = compact + insignificant whitespace'
 TRUSTED = ['Coq 8.16.1 kernel', 'translator (escape table)', 'extraction + OCaml driver', 'Rust harness',
@@ -89,10 +89,17 @@ def generate(ctx):
             ds += [v, w]
     ctx.ds = ds
     ctx.trials = []
+    non_jsonb_stream(ctx)
+    # strings / keys of 255 .. 65536 bytes (also multi-byte text crossing 256) and containers of 255 .. 1000 members (sizes.py;
+    # second review H2).  The model's renderer is quadratic in a string (0.2 s at 4 KiB, ~100 s at 64 KiB): the documents with a
+    # 64 KiB string are rendered by the implementation only and judged by the strict parser below (too_big_for_model)
+    big = sizes.string_docs() + sizes.container_docs()
+    too_big_for_model = set(id(v) for lab, v in big if lab.startswith(('str6', 'key6')))
+    ds += [v for _, v in big]
     for v in ds:
         e = gen.hexarg(gen.enc(v))
-        ctx.add('to_string %s' % e)
-        ctx.add('to_pretty_string %s' % e)
+        ctx.add('to_string %s' % e, diff=id(v) not in too_big_for_model)
+        ctx.add('to_pretty_string %s' % e, diff=id(v) not in too_big_for_model)
         ids = (ctx.add('to_string_raw %s' % e, diff=False).id, ctx.add('to_pretty_string_raw %s' % e, diff=False).id,
                ctx.add('text_roundtrip %s' % e, diff=False).id)
         ctx.trials.append((v, ids))
@@ -112,10 +119,63 @@ def generate(ctx):
                 h = gen.hexarg(m)
                 ctx.add('to_string %s' % h, kind='malformed')
                 ctx.add('to_pretty_string %s' % h, kind='malformed')
+            elif m:
+                # the first byte was changed: no longer JSONB, echoed by the text branch (byte-exact ops, see non_jsonb_stream)
+                try:
+                    m.decode('utf-8')
+                    wf = True
+                except UnicodeDecodeError:
+                    wf = False
+                for op in ('to_string_bytes', 'to_pretty_string_bytes'):
+                    c = ctx.add('%s %s' % (op, gen.hexarg(m)), kind='non-jsonb-input', diff=wf or ILL_FORMED_DIFF)
+                    ctx.non_jsonb.append((c.id, c.line, m))
+                ctx.count('non_jsonb_inputs', 'mutated encoding, ' + ('well-formed UTF-8' if wf else 'ill-formed UTF-8'))
+
+
+def non_jsonb_stream(ctx):
+    """to_string / to_pretty_string on input that is NOT JSONB (first byte none of 0x80 0x40 0x20): the text branch echoes the
+    input through String::from_utf8_lossy.  Compared byte for byte on both sides (ops to_string_bytes / to_pretty_string_bytes:
+    no canonicalisation anywhere) and judged on the implementation alone against Python's `errors='replace'` decoder (the same
+    maximal-subpart substitution of U+FFFD).
+    TODO(lead): the model's text branch returned the input bytes unchanged (second review, M2); the Coq side is being changed to
+    apply `lossy`.  Until that is merged the ILL-FORMED inputs are diff=False (flip ILL_FORMED_DIFF to True afterwards); the
+    well-formed ones are diffed already."""
+    r = ctx.rng
+    ill = [b'\xff', b'\x9f', b'\x9fabc', b'\x81\x00', b'a\x80b', b'\xc3', b'\xc3(', b'ab\xc3', b'\xe2\x82', b'\xe2\x82x', b'\xe2(\xa1', b'\xf0\x9f\x98', b'\xf0\x9f\x98x',
+           b'\xf0(\x8c\xbc', b'\xc0\xaf', b'\xc1\xbf', b'\xe0\x80\xaf', b'\xe0\x9f\xbf', b'\xed\xa0\x80', b'\xed\xbf\xbf', b'\xf0\x8f\xbf\xbf', b'\xf4\x90\x80\x80',
+           b'\xf5\x80\x80\x80', b'\xf8\x88\x80\x80\x80', b'\xfe', b'\xfe\xff', b'[1,"\xff"]', b'{"a\xc3":1}', b'"\xed\xa0\x80\xed\xb0\x80"', b'\x00\xff\x00',
+           b'\x9f' * 5, b'x' + b'\x80' * 300, b'\xe2\x82\xac' * 100 + b'\xe2\x82', b'1.5e3\xff', b'\x21\x80\x40\x20']
+    well = [b'null', b' [1, 2.50, 1e3]', b'1.50', b'-0.0', b'"a\\u0041"', b'not json at all', '"é€😀"'.encode(), b'\x00', b'\x7f', b'\t{"a" :\n1}', b'[', b'\x1f',
+            '語'.encode() * 120, b'{"k":"' + b'v' * 400 + b'"}', b'1' * 300]
+    for _ in range(ctx.scale(150, 4000)):
+        n = r.randrange(1, 12)
+        b = bytes(r.choice([0x61, 0x22, 0x5b, 0x80, 0xbf, 0xc2, 0xc3, 0xe0, 0xe2, 0xed, 0xf0, 0xf4, 0xff, 0x9f, 0xa0, 0x00, 0x31]) for _ in range(n))
+        try:
+            b.decode('utf-8')
+            well.append(b)
+        except UnicodeDecodeError:
+            ill.append(b)
+    ctx.non_jsonb = []
+    for b, wf in [(x, False) for x in ill] + [(x, True) for x in well]:
+        if not b or b[0] in (0x80, 0x40, 0x20):
+            continue
+        for op in ('to_string_bytes', 'to_pretty_string_bytes'):
+            c = ctx.add('%s %s' % (op, gen.hexarg(b)), kind='non-jsonb-input', diff=wf or ILL_FORMED_DIFF)
+            ctx.non_jsonb.append((c.id, c.line, b))
+        ctx.count('non_jsonb_inputs', 'well-formed UTF-8' if wf else 'ill-formed UTF-8')
+
+
+ILL_FORMED_DIFF = False      # TODO(lead): True once the model's text branch applies `lossy` (second review, M2)
 
 
 def judge(ctx):
     impl = ctx.impl
+    for cid, line, b in ctx.non_jsonb:
+        o = impl.get(cid, 'missing')
+        want = 'ok ' + gen.hexarg(b.decode('utf-8', 'replace').encode('utf-8'))
+        if o != want:
+            ctx.violate('the rendering of non-JSONB input is not the input with every ill-formed UTF-8 sequence replaced by U+FFFD', case=line,
+                        expected=want[:300], observed=o[:300])
     for v, ids in ctx.trials:
         c, p, rt = [impl.get(i, 'missing') for i in ids]
         case = gen.vtext(v)
